@@ -50,6 +50,12 @@ def run(ck):
         traces.append(with_forks(rng, dense_queries(dbgen.gen_launch_trace(rng), 5), rng.randint(1, kf)))
     for _ in range(80 * n):
         traces.append(dbgen.gen_kv_trace(rng, length=rng.randint(6, 16)))
+    for _ in range(40 * n):
+        traces.append(dbgen.gen_launch_evolve_trace(rng))
+    for vid, (rg, cn) in {101: ([1, 2], [2, 1]), 102: ([1, 2], [1, 2]), 103: ([3], [3])}.items():
+        eng.define_regions(vid, rg, cn)
+    for _ in range(40 * n):
+        traces.append(dbgen.gen_regions_trace(rng))
     traces = [dbgen.with_lag(rng, t, 0.5) for t in traces]
     if not ok:
         return
